@@ -7,6 +7,7 @@ the same result as the canonical form.
 
   * `UV n bs`        `bs` is a base-128 varint of `n`: minimal (`Spec.Thrift.leb128 n`) or padded with zero groups
   * `VarU n bs`      … of at most 10 bytes (Go `binary.MaxVarintLen64`)
+  * `ElemCode t c`   the type nibble of an element / key / value type in a header: the compact code; bool: 2 or 1
   * `ListHdr t n`    list / set header: short form `ssss tttt` (only when `n < 15`) or long form `1111 tttt` + varint
                      (for EVERY size)
   * `MapHdr k v n`   map header: varint 0 for the empty map, else varint size + `kkkk vvvv`
@@ -178,53 +179,74 @@ theorem rBytes_BytesC (s : Bytes) (h : s.length ≤ 2147483647) {bs : Bytes} (hb
 
 /-! ## list / set header -/
 
-/-- the two forms of a compact list / set header for element type `t` and size `n`. The short form exists only below
-15 elements; the long form (size nibble 15, then the size as a varint) is a valid encoding of EVERY size. -/
+/-- the type nibbles a list / set / map header may announce for an element, key or value type `t`: its compact code;
+for bool the code 2 of the specification text, or 1 (the TRUE code of field headers, which writers with a single type
+table send: readers must accept both) -/
+def ElemCode (t : Spec.Thrift.TT) (c : Nat) : Prop := c = Spec.Thrift.cmpCode t ∨ (t = .bool ∧ c = 1)
+
+theorem ElemCode_canonical (t : Spec.Thrift.TT) : ElemCode t (Spec.Thrift.cmpCode t) := Or.inl rfl
+
+/-- the announced nibble is a valid code, and after the reader's TRUE → BOOL translation it is the type `t` -/
+theorem ElemCode_read {t : Spec.Thrift.TT} {c : Nat} (h : ElemCode t c) :
+    1 ≤ c ∧ c < 16 ∧
+      (if TType.ofCode c == TType.true_ then TType.bool else TType.ofCode c) = ofSpec t := by
+  rcases h with rfl | ⟨rfl, rfl⟩
+  · exact ⟨cmpCode_pos t, cmpCode_lt t, by cases t <;> rfl⟩
+  · exact ⟨by omega, by omega, rfl⟩
+
+/-- the forms of a compact list / set header for element type `t` and size `n`. The short form exists only below
+15 elements; the long form (size nibble 15, then the size as a varint) is a valid encoding of EVERY size. The element
+type nibble is any `ElemCode t` (bool: 1 or 2). -/
 inductive ListHdr (t : Spec.Thrift.TT) (n : Nat) : Bytes → Prop
-  | short : n < 15 → ListHdr t n [UInt8.ofNat (n * 16 + Spec.Thrift.cmpCode t)]
-  | long (bs : Bytes) : VarU n bs → ListHdr t n (UInt8.ofNat (0xF0 + Spec.Thrift.cmpCode t) :: bs)
+  | short (c : Nat) : ElemCode t c → n < 15 → ListHdr t n [UInt8.ofNat (n * 16 + c)]
+  | long (c : Nat) (bs : Bytes) : ElemCode t c → VarU n bs → ListHdr t n (UInt8.ofNat (0xF0 + c) :: bs)
 
 theorem ListHdr_canonical (t : Spec.Thrift.TT) (n : Nat) (h : n < 2 ^ 64) :
     ListHdr t n (Spec.Thrift.listHdr .compact t n) := by
   unfold Spec.Thrift.listHdr
   simp only
   split
-  · exact .short ‹_›
-  · exact .long _ (VarU_leb128 n h)
+  · exact .short _ (ElemCode_canonical t) ‹_›
+  · exact .long _ _ (ElemCode_canonical t) (VarU_leb128 n h)
 
 theorem ListHdr_length_pos {t : Spec.Thrift.TT} {n : Nat} {bs : Bytes} (h : ListHdr t n bs) : 1 ≤ bs.length := by
   cases h <;> simp
 
-/-- **`ReadList` / `ReadSet` accept both forms with the same `(type, size)`** -/
+/-- **`ReadList` / `ReadSet` accept every form with the same size and — after the decoder's TRUE → BOOL translation —
+the same element type** -/
 theorem rList_ListHdr (t : Spec.Thrift.TT) (n : Nat) (hn : n ≤ 2147483647) {hdr : Bytes} (h : ListHdr t n hdr)
-    (rest : Bytes) : rList .compact (hdr ++ rest) = .ok ((ofSpec t, n), rest) := by
-  have hc1 := cmpCode_pos t
-  have hc2 := cmpCode_lt t
-  have hof : TType.ofCode (Spec.Thrift.cmpCode t) = ofSpec t := by cases t <;> rfl
+    (rest : Bytes) :
+    ∃ t', rList .compact (hdr ++ rest) = .ok ((t', n), rest) ∧
+      (if t' == TType.true_ then TType.bool else t') = ofSpec t := by
   cases h with
-  | short hs =>
+  | short c hc hs =>
+    obtain ⟨hc1, hc2, hof⟩ := ElemCode_read hc
+    refine ⟨TType.ofCode c, ?_, hof⟩
     simp only [rList, List.cons_append, List.nil_append, rByte, Res.bind]
     rw [toNat_ofNat_lt _ (by omega)]
-    have e1 : (n * 16 + Spec.Thrift.cmpCode t) / 16 = n := by omega
-    have e2 : (n * 16 + Spec.Thrift.cmpCode t) % 16 = Spec.Thrift.cmpCode t := by omega
+    have e1 : (n * 16 + c) / 16 = n := by omega
+    have e2 : (n * 16 + c) % 16 = c := by omega
     have e3 : (n != 15) = true := by simp; omega
-    simp only [e1, e2, e3, if_true, hof]
-  | long bs hv =>
+    simp only [e1, e2, e3, if_true]
+  | long c bs hc hv =>
+    obtain ⟨hc1, hc2, hof⟩ := ElemCode_read hc
+    refine ⟨TType.ofCode c, ?_, hof⟩
     simp only [rList, List.cons_append, rByte, Res.bind]
     rw [toNat_ofNat_lt _ (by omega)]
-    have e1 : (0xF0 + Spec.Thrift.cmpCode t) / 16 = 15 := by omega
-    have e2 : (0xF0 + Spec.Thrift.cmpCode t) % 16 = Spec.Thrift.cmpCode t := by omega
+    have e1 : (0xF0 + c) / 16 = 15 := by omega
+    have e2 : (0xF0 + c) % 16 = c := by omega
     have hn' : ¬ n > 2147483647 := by omega
     simp only [e1, e2, bne_self_eq_false, Bool.false_eq_true, if_false, readUvarint_UV hv (by omega) rest,
-      hn', dontExpectEOF_ok, hof]
+      hn', dontExpectEOF_ok]
 
 /-! ## map header -/
 
-/-- compact map header: the empty map is a varint 0 and nothing else; otherwise varint size, then `kkkk vvvv` -/
+/-- compact map header: the empty map is a varint 0 and nothing else; otherwise varint size, then `kkkk vvvv`, each
+nibble any `ElemCode` of the key / value type (bool: 1 or 2) -/
 inductive MapHdr (k v : Spec.Thrift.TT) (n : Nat) : Bytes → Prop
   | empty (bs : Bytes) : n = 0 → VarU 0 bs → MapHdr k v n bs
-  | nonempty (bs : Bytes) : 0 < n → VarU n bs →
-      MapHdr k v n (bs ++ [UInt8.ofNat (Spec.Thrift.cmpCode k * 16 + Spec.Thrift.cmpCode v)])
+  | nonempty (ck cv : Nat) (bs : Bytes) : ElemCode k ck → ElemCode v cv → 0 < n → VarU n bs →
+      MapHdr k v n (bs ++ [UInt8.ofNat (ck * 16 + cv)])
 
 theorem MapHdr_canonical (k v : Spec.Thrift.TT) (n : Nat) (h : n < 2 ^ 64) :
     MapHdr k v n (Spec.Thrift.mapHdr .compact k v n) := by
@@ -238,38 +260,38 @@ theorem MapHdr_canonical (k v : Spec.Thrift.TT) (n : Nat) (h : n < 2 ^ 64) :
     exact .empty _ rfl this
   · have : (n == 0) = false := by simpa using h0
     simp only [this, Bool.false_eq_true, if_false]
-    exact .nonempty _ (by omega) (VarU_leb128 n h)
+    exact .nonempty _ _ _ (ElemCode_canonical k) (ElemCode_canonical v) (by omega) (VarU_leb128 n h)
 
 theorem MapHdr_length_pos {k v : Spec.Thrift.TT} {n : Nat} {bs : Bytes} (h : MapHdr k v n bs) : 1 ≤ bs.length := by
   cases h with
   | empty bs _ hv => exact VarU_length_pos hv
-  | nonempty bs _ hv => simp
+  | nonempty ck cv bs _ _ _ hv => simp
 
-/-- `ReadMap`: the empty map reads back without its key / value types, every other header with them -/
+/-- `ReadMap`: the empty map reads back without its key / value types; every other header with the size and — after the
+decoder's TRUE → BOOL translation — the key and value types -/
 theorem rMap_MapHdr (k v : Spec.Thrift.TT) (n : Nat) (hn : n ≤ 2147483647) {hdr : Bytes} (h : MapHdr k v n hdr)
     (rest : Bytes) :
-    rMap .compact (hdr ++ rest) = .ok ((if n = 0 then (.stop, .stop, 0) else (ofSpec k, ofSpec v, n)), rest) := by
-  have hk1 := cmpCode_pos k
-  have hk2 := cmpCode_lt k
-  have hv1 := cmpCode_pos v
-  have hv2 := cmpCode_lt v
-  have hofk : TType.ofCode (Spec.Thrift.cmpCode k) = ofSpec k := by cases k <;> rfl
-  have hofv : TType.ofCode (Spec.Thrift.cmpCode v) = ofSpec v := by cases v <;> rfl
+    ∃ k' v', rMap .compact (hdr ++ rest) = .ok ((k', v', n), rest) ∧
+      (n ≠ 0 → (if k' == TType.true_ then TType.bool else k') = ofSpec k ∧
+               (if v' == TType.true_ then TType.bool else v') = ofSpec v) := by
   cases h with
   | empty bs h0 hv =>
     subst h0
+    refine ⟨.stop, .stop, ?_, fun h => absurd rfl h⟩
     simp only [rMap, readUvarint_UV hv (by omega) rest, Res.bind]
     simp
-  | nonempty bs h0 hv =>
+  | nonempty ck cv bs hck hcv h0 hv =>
+    obtain ⟨hk1, hk2, hofk⟩ := ElemCode_read hck
+    obtain ⟨hv1, hv2, hofv⟩ := ElemCode_read hcv
+    refine ⟨TType.ofCode ck, TType.ofCode cv, ?_, fun _ => ⟨hofk, hofv⟩⟩
     have hn' : ¬ n > 2147483647 := by omega
     have hne : (n == 0) = false := by simp; omega
-    have hne' : ¬ n = 0 := by omega
     simp only [rMap, List.append_assoc, readUvarint_UV hv (by omega) _, Res.bind, hn', if_false, hne,
-      Bool.false_eq_true, List.cons_append, List.nil_append, rByte, dontExpectEOF_ok, hne']
+      Bool.false_eq_true, List.cons_append, List.nil_append, rByte, dontExpectEOF_ok]
     rw [toNat_ofNat_lt _ (by omega)]
-    have e1 : (Spec.Thrift.cmpCode k * 16 + Spec.Thrift.cmpCode v) / 16 = Spec.Thrift.cmpCode k := by omega
-    have e2 : (Spec.Thrift.cmpCode k * 16 + Spec.Thrift.cmpCode v) % 16 = Spec.Thrift.cmpCode v := by omega
-    simp only [e1, e2, hofk, hofv]
+    have e1 : (ck * 16 + cv) / 16 = ck := by omega
+    have e2 : (ck * 16 + cv) % 16 = cv := by omega
+    simp only [e1, e2]
 
 /-! ## field header -/
 
